@@ -380,6 +380,9 @@ func (f *frame) contractCall(callee *ssa.Function, fc *FuncContract, args []SV, 
 			f.throws[len(f.throws)-1].cond = and(cs...)
 		}
 		for _, en := range fc.Ensures {
+			if strings.Contains(en.Text, "ncalls(") {
+				continue // a count of the callee's own events says nothing at the call site
+			}
 			ctx := &evalCtx{f: f, pkg: pkg, bind: nb, heap: f.curHeap, oldHeap: f.curHeap, oldBind: bind, what: "ensures of " + key, calleeSide: true}
 			f.assume(ctx.evalAssume(en.Text))
 		}
@@ -471,6 +474,9 @@ func (f *frame) contractCall(callee *ssa.Function, fc *FuncContract, args []SV, 
 		}
 	}
 	for _, en := range fc.Ensures {
+		if strings.Contains(en.Text, "ncalls(") {
+			continue // a count of the callee's own events says nothing at the call site
+		}
 		ctx := &evalCtx{f: f, pkg: pkg, bind: nb, heap: f.curHeap, oldHeap: oldHeap, oldBind: bind, what: "ensures of " + key, calleeSide: true}
 		f.assume(ctx.evalAssume(en.Text))
 	}
@@ -684,29 +690,48 @@ func (f *frame) builtin(b *ssa.Builtin, c *ssa.CallCommon, base string, resT typ
 		add := f.get(c.Args[1])
 		el := s.t.Underlying().(*types.Slice).Elem()
 		f.escape(c.Args[1])
+		f.atCallObligations("append", []SV{s, add}, pos)
 		// result: length grows by len(add); backing array may be fresh; contents of the
 		// appended part come from add.  Model: fresh slice value with known length, element
 		// heap of that type havocked at the result's array for the appended range only is
 		// too fine; we havoc the whole element heap entry of the result array.
-		r := f.resultHavoc(base, resT)
 		var addLen string
 		if e.R.sortOf(add.t) == "Str" {
 			addLen = fmt.Sprintf("(slen %s)", add.term)
 		} else {
 			addLen = fmt.Sprintf("(sl-len %s)", add.term)
 		}
-		f.assume(fmt.Sprintf("(= (sl-len %s) (bvadd (sl-len %s) %s))", r.term, s.term, addLen))
-		f.assume(fmt.Sprintf("(not (= (sl-ref %s) 0))", r.term))
 		key, sort := e.elemHeapKey(el)
 		cur := e.heapGet(f.curHeap, key, sort)
+		// where the result lives: in the array of s when its capacity suffices (same
+		// reference, offset and capacity; only the appended slots change), otherwise in an
+		// array allocated by this call (a reference no other value of the function has)
+		inPlace := e.define(e.fresh(base+"!inplace"), "Bool", fmt.Sprintf("(bvsle (bvadd (sl-len %s) %s) (sl-cap %s))", s.term, addLen, s.term))
+		nref := f.newRef()
+		f.locals = append(f.locals, localAlloc{ref: nref, t: types.NewArray(el, 0)})
+		ncap := e.declare(e.fresh(base+"!cap"), bv64)
+		newLen := fmt.Sprintf("(bvadd (sl-len %s) %s)", s.term, addLen)
+		f.assume(fmt.Sprintf("(and (bvsle %s %s) (bvsle %s #x0000ffffffffffff))", newLen, ncap, ncap))
+		r := SV{t: resT, term: e.define(base, "Slice", fmt.Sprintf("(mk-slice (ite %s (sl-ref %s) %s) (ite %s (sl-off %s) #x0000000000000000) %s (ite %s (sl-cap %s) %s))",
+			inPlace, s.term, nref, inPlace, s.term, newLen, inPlace, s.term, ncap))}
 		nh, _ := e.havoc(key+"!app", types.Typ[types.Int]) // placeholder name
 		_ = nh
 		newArr := e.declare(e.fresh(key+"!arr"), "(Array (_ BitVec 64) "+e.R.sortOf(el)+")")
-		// elements below old length are preserved
-		// append(s, x1, .., xn) with n <= 4 written out: the appended slots hold x1 .. xn
+		// elements below old length are preserved: result[q] == s[q] for q < len(s)
+		exact := e.top != nil && e.top.contract != nil && e.top.contract.ExactAppend
+		if exact {
+			f.assume(fmt.Sprintf("(forall ((q!a (_ BitVec 64))) (=> (and (bvsle #x0000000000000000 q!a) (bvslt q!a (sl-len %s))) (= (select %s (bvadd (sl-off %s) q!a)) (select (select %s (sl-ref %s)) (bvadd (sl-off %s) q!a)))))",
+			s.term, newArr, r.term, cur, s.term, s.term))
+		}
+		// in place: every slot of the array outside the appended range keeps its value
+		if exact {
+			f.assume(fmt.Sprintf("(=> %s (forall ((q!b (_ BitVec 64))) (=> (not (and (bvsle (bvadd (sl-off %s) (sl-len %s)) q!b) (bvslt q!b (bvadd (sl-off %s) (sl-len %s))))) (= (select %s q!b) (select (select %s (sl-ref %s)) q!b)))))",
+			inPlace, s.term, s.term, r.term, r.term, newArr, cur, s.term))
+		}
+		// append(s, x1, .., xn) with n <= 8 written out: the appended slots hold x1 .. xn
 		if sl, ok := c.Args[1].(*ssa.Slice); ok && e.R.sortOf(add.t) == "Slice" && sl.Low == nil && sl.High == nil {
 			if pt, ok := sl.X.Type().Underlying().(*types.Pointer); ok {
-				if at, ok := pt.Elem().Underlying().(*types.Array); ok && at.Len() >= 1 && at.Len() <= 4 {
+				if at, ok := pt.Elem().Underlying().(*types.Array); ok && at.Len() >= 1 && at.Len() <= 8 {
 					for i := int64(0); i < at.Len(); i++ {
 						f.assume(fmt.Sprintf("(= (select %s (bvadd (sl-off %s) (bvadd (sl-len %s) %s))) (select (select %s (sl-ref %s)) (bvadd (sl-off %s) %s)))",
 							newArr, r.term, s.term, bvLit(i, 64), cur, add.term, add.term, bvLit(i, 64)))
@@ -715,7 +740,7 @@ func (f *frame) builtin(b *ssa.Builtin, c *ssa.CallCommon, base string, resT typ
 			}
 		}
 		e.heapSet(f.curHeap, key, sort, fmt.Sprintf("(store %s (sl-ref %s) %s)", cur, r.term, newArr))
-		e.note("append: result length exact, appended elements known for up to four written-out values; preserved prefix not modelled")
+		e.note("append: result length exact, appended elements known for up to eight written-out values; the prefix and (in place) the rest of the array are preserved in functions marked exact_append; the result shares the array of the first argument exactly when its capacity suffices, otherwise the array is new")
 		return r
 	case "copy":
 		dst := f.get(c.Args[0])
@@ -1503,7 +1528,7 @@ func (f *frame) atCallObligations(key string, args []SV, pos token.Pos) {
 		}
 	}
 	for k, cs := range top.contract.AtCalls {
-		if cs.Callee != key {
+		if cs.Callee != key && !(key == "append" && strings.HasSuffix(cs.Callee, ".append")) {
 			continue
 		}
 		if cs.Loop >= 0 && cs.Loop != siteLoop {
